@@ -38,6 +38,8 @@ Statement level
   * `if (x := E): S` -> `x = E; if x: S`; a walrus in a later conjunct of an else-less test nests the test
   * `x = A if c else B` -> `if c: x = A else: x = B`, likewise `return A if c else B` (whole-value conditionals)
   * `x = <constant>` that no read can observe (reaching definitions) is removed
+  * a flag set to constants at the end of both arms of an `if` and read only by the next statement: that statement
+    moves into the arms with the constant in place of the flag
   * a local assigned once and read once by the next statement (first thing evaluated there, or a pure value) is inlined
   * case splitting (sa/casesplit.py): `if V in ('a','b'): S` whose body switches on V again -> one arm per literal
   * `if a: (if b: X)` without else -> `if a and b: X`;  `if k in M: x = M[k]` -> `x = M.get(k, x)`
@@ -115,6 +117,8 @@ def negate(e):
 class ExprCanon(ast.NodeTransformer):
     def visit_UnaryOp(self, node):
         self.generic_visit(node)
+        if isinstance(node.op, ast.Not) and isinstance(node.operand, ast.Constant) and isinstance(node.operand.value, bool):
+            return _loc(ast.Constant(value=not node.operand.value), node)
         if isinstance(node.op, ast.Not):
             inner = node.operand
             if isinstance(inner, (ast.BoolOp, ast.UnaryOp)) or (isinstance(inner, ast.Compare) and len(inner.ops) == 1 and type(inner.ops[0]) in _NEG):
@@ -638,6 +642,7 @@ def canon_block(stmts):
     if len(stmts) > 1:
         stmts = [s for s in stmts if not isinstance(s, ast.Pass)] or stmts[:1]
     stmts = _strip_annotations(stmts)
+    stmts = _sink_flag(stmts)
     stmts = _expand_walrus(stmts)
     stmts = _expand_ifexp(stmts)
     stmts = _split_tuple_assigns(stmts)
@@ -863,59 +868,116 @@ def _drop_dead_constant_stores(fnode):
 
 
 def _inline_single_use(fnode):
-    """a local assigned once and read once, by the very next statement of its block, before anything else with an
-    effect is evaluated there (or anywhere in it when the value is pure): the temporary is removed"""
+    """a value assigned to a local and read exactly once, by the very next statement of its block, before anything
+    else with an effect is evaluated there (or anywhere in it when the value is pure): the temporary is removed.
+    "Read exactly once" is per definition (reaching definitions), so a name reused for several values qualifies."""
     from .inline import first_evaluated
     from .unextract import _pure
+    from .refnorm import reaching_definitions
 
     changed = False
     for _ in range(6):
-        stores, loads, blocked = {}, {}, set()
+        blocked = set()
         for n in ast.walk(fnode):
-            if isinstance(n, ast.Name):
-                (stores if isinstance(n.ctx, (ast.Store, ast.Del)) else loads).setdefault(n.id, []).append(n)
-            elif isinstance(n, ast.arg):
-                blocked.add(n.arg)
-            elif isinstance(n, (ast.Global, ast.Nonlocal)):
+            if isinstance(n, (ast.Global, ast.Nonlocal)):
                 blocked |= set(n.names)
             elif isinstance(n, (ast.Lambda, ast.FunctionDef, ast.AsyncFunctionDef)) and n is not fnode:
                 blocked |= {x.id for x in ast.walk(n) if isinstance(x, ast.Name)}
-            elif isinstance(n, ast.ExceptHandler) and n.name:
-                blocked.add(n.name)
-        cands = {k for k in stores if len(stores[k]) == 1 and len(loads.get(k, ())) == 1 and k not in blocked}
-        if not cands:
+        reach = reaching_definitions(fnode)
+        if not reach:
             break
+        uses_of = {}
+        loads = {}
+        for n in ast.walk(fnode):
+            if isinstance(n, ast.Name) and isinstance(n.ctx, ast.Load) and id(n) in reach:
+                loads[id(n)] = n
+                for d in reach[id(n)]:
+                    uses_of.setdefault(id(d), []).append(n)
         state = {"done": False}
 
         def block(lst):
             i = 0
             while i + 1 < len(lst):
                 s0, s1 = lst[i], lst[i + 1]
-                if isinstance(s0, ast.Assign) and len(s0.targets) == 1 and isinstance(s0.targets[0], ast.Name) and s0.targets[0].id in cands and s0.targets[0] is stores[s0.targets[0].id][0]:
-                    name = s0.targets[0].id
-                    rd = loads[name][0]
-                    own = _own_expr(s1)
-                    if own is not None and any(x is rd for x in ast.walk(own)) and not isinstance(s1, ast.While):
-                        if first_evaluated(s1, name) or (_pure(s0.value) and not _under_binder(own, rd)):
-                            _replace_expr(s1, rd, s0.value)
-                            del lst[i]
-                            state["done"] = True
-                            continue
+                if isinstance(s0, ast.Assign) and len(s0.targets) == 1 and isinstance(s0.targets[0], ast.Name) and s0.targets[0].id not in blocked:
+                    tgt = s0.targets[0]
+                    us = uses_of.get(id(tgt), [])
+                    if len(us) == 1 and len(reach.get(id(us[0]), [])) == 1:
+                        rd = us[0]
+                        own = _own_expr(s1)
+                        if own is not None and any(x is rd for x in ast.walk(own)) and not isinstance(s1, ast.While) and sum(1 for x in ast.walk(own) if isinstance(x, ast.Name) and x.id == tgt.id and isinstance(x.ctx, ast.Load)) == 1:
+                            if first_evaluated(s1, tgt.id) or (_pure(s0.value) and not _under_binder(own, rd)):
+                                _replace_expr(s1, rd, s0.value)
+                                del lst[i]
+                                state["done"] = True
+                                return
                 i += 1
             for s_ in lst:
+                if state["done"]:
+                    return
                 for f in ("body", "orelse", "finalbody"):
                     sub = getattr(s_, f, None)
                     if isinstance(sub, list) and not isinstance(s_, (ast.FunctionDef, ast.AsyncFunctionDef, ast.ClassDef)):
                         block(sub)
+                        if state["done"]:
+                            return
                 if isinstance(s_, ast.Try):
                     for h in s_.handlers:
                         block(h.body)
+                        if state["done"]:
+                            return
 
-        block(fnode.body)
-        if not state["done"]:
-            break
-        changed = True
+        # one replacement per analysis (the reaching definitions change with every rewrite)
+        for _k in range(40):
+            state["done"] = False
+            block(fnode.body)
+            if not state["done"]:
+                break
+            changed = True
+            reach = reaching_definitions(fnode)
+            uses_of = {}
+            for n in ast.walk(fnode):
+                if isinstance(n, ast.Name) and isinstance(n.ctx, ast.Load) and id(n) in reach:
+                    for d in reach[id(n)]:
+                        uses_of.setdefault(id(d), []).append(n)
+        break
     return changed
+
+
+def _sink_flag(stmts):
+    """`if c: ..; t = K1 else: ..; t = K2` followed by the only statement reading t  ->  that statement is copied
+    into both arms with the constant in place of t (a flag set in two arms and tested once is the two arms)"""
+    out = list(stmts)
+    i = 0
+    while i + 1 < len(out):
+        s, nxt = out[i], out[i + 1]
+        if isinstance(s, ast.If) and s.body and s.orelse and isinstance(nxt, (ast.If, ast.Assign, ast.Expr, ast.Return)):
+            b, o = s.body[-1], s.orelse[-1]
+            if isinstance(b, ast.Assign) and isinstance(o, ast.Assign) and len(b.targets) == 1 and len(o.targets) == 1 and isinstance(b.targets[0], ast.Name) and isinstance(o.targets[0], ast.Name) and b.targets[0].id == o.targets[0].id and _is_const(b.value) and _is_const(o.value):
+                t = b.targets[0].id
+                own = _own_expr(nxt)
+                later = out[i + 2:]
+                reads_here = [x for x in ast.walk(own)] if own is not None else []
+                n_reads = sum(1 for x in reads_here if isinstance(x, ast.Name) and x.id == t and isinstance(x.ctx, ast.Load))
+                other_mentions = any(_mentions(x, t) for x in later) or any(_mentions(x, t) for x in s.body[:-1] + s.orelse[:-1]) or _mentions(s.test, t)
+                inner_mentions = isinstance(nxt, ast.If) and any(_mentions(x, t) for x in nxt.body + nxt.orelse)
+                if n_reads >= 1 and not other_mentions and not inner_mentions and (len(s.body) > 1 or len(s.orelse) > 1):
+                    def spec(val):
+                        c = copy.deepcopy(nxt)
+
+                        class R(ast.NodeTransformer):
+                            def visit_Name(self, n):
+                                if n.id == t and isinstance(n.ctx, ast.Load):
+                                    return _loc(copy.deepcopy(val), n)
+                                return n
+
+                        return ast.fix_missing_locations(R().visit(c))
+
+                    new = _loc(ast.If(test=s.test, body=s.body[:-1] + [spec(b.value)], orelse=s.orelse[:-1] + [spec(o.value)]), s)
+                    out[i:i + 2] = [canon_stmt(new)]
+                    continue
+        i += 1
+    return out
 
 
 def _own_expr(s):
